@@ -9,7 +9,7 @@ from vf.sx.ob import Case
 import kx_c08 as K
 
 MATS = [[[3, -2], [1, -1]], [[1, -1], [-1, 1]], [[5, -4], [-4, 5]], [[2, 0], [-2, 1]], [[-1, -2], [-2, -1]]]
-GAPS = [-2, (-3, -1), -1, (-2, -1), 0]
+GAPS = [-2, (-3, -1), (-4, -4), -1, (-2, -1), 0, (-10, -9), (-1, -3)]
 THRESH = [100, 1, 0, 3]
 DIRS = ["both", "upstream", "downstream"]
 
@@ -229,6 +229,9 @@ def check_banded(c1, c2, mi, gi, band, local):
             if x != -1 and y != -1 and not lo <= y - x <= hi:
                 return f"pair ({x},{y}) outside the band {band}"
         rec = _score_cols(cols, c1, c2, mat, gap)
+        if affine and abs(int(aln.score)) >= 2 ** 30:
+            # known finding C09-banded-affine-overflow: the int32 'negative infinity' sentinel of the affine tables wraps
+            return "KNOWN:affine-overflow"
         if rec != aln.score:
             if not local and _boundary_gap_mislabelled(cols, c1, c2, mat, gap, int(aln.score)):
                 return "KNOWN:boundary-gap"
@@ -335,10 +338,14 @@ def ob_banded(tier):
             if not local:
                 # the finding is recognised structurally (see _boundary_gap_mislabelled / _gap_next_to_overhang); the
                 # witness is replayed on every run and the KNOWN-FINDING line printed while it still fails
-                known = [("C09-banded-boundary-gap", z3.BoolVal(False), dict(n=2, m=2, codes=[0, 0, 0, 0, 1, 0, 0, 0], mi=0, gi=2, b0=-1, b1=0, local=False, strict=True),
+                known = [("C09-banded-boundary-gap", z3.BoolVal(False), dict(n=2, m=2, codes=[0, 0, 0, 0, 1, 0, 0, 0], mi=0, gi=3, b0=-1, b1=0, local=False, strict=True),
                           "align_banded (semi-global): when the best in-band path starts or ends with a gap column next to the free overhang of the "
                           "other sequence, the trace post-processing labels that column as a pair: seq1=[0,0], seq2=[1,0], matrix [[3,-2],[1,-1]], gap -1, "
                           "band (-1,0) reports score 2 for the trace [(0,0),(1,1)] which scores 1; with affine penalties such results can also exceed align_optimal's optimum")]
+            known = known + [("C09-banded-affine-overflow", z3.BoolVal(False), dict(n=2, m=2, codes=[0] * 8, mi=0, gi=2, b0=-3, b1=0, local=False, strict=True),
+                              "align_banded with an affine penalty whose extension is as large as the opening (e.g. (-4,-4), (-10,-10), (-10,-9)): the int32 "
+                              "'negative infinity' sentinel of the gap tables is corrected for ONE addition only, a second penalty wraps it around and a score "
+                              "near 2^31 is reported (seq [0,0] vs [0,0], band (-3,0): score 2147483646 for a trace that scores -1)")]
             cases.append(Case(f"banded {n}x{m} local={local}", base, run, dict(n=n, m=m, codes=cs, mi=mi, gi=gi, b0=b0, b1=b1, local=local),
                               _rep(lambda w: _banded_replay(w)), known=known))
     return cases
